@@ -3,6 +3,9 @@ CONSTANTS
   MaxBody = 1
   Shapes <- ShapesBad
   Rounds = 1
+  RESETLAST = TRUE
+  HDRDATA = TRUE
+  MaxEmpty = 1
   GEN = FALSE
 INVARIANTS NoWedge
 VIEW View
